@@ -150,7 +150,9 @@ EXPORT errno_t _mbstowcs_s_chk(size_t *restrict retvalp, wchar_t *restrict dest,
             }
             BND_CHK_PTR_BOUNDS(dest, destsz);
         } else {
-            if (unlikely(destsz > destbos || len * sizeof(wchar_t) > destbos)) {
+            if (unlikely(destsz > destbos ||
+                         destsz / sizeof(wchar_t) != dmax ||
+                         len > destbos / sizeof(wchar_t))) {
                 if (unlikely(dmax > RSIZE_MAX_WSTR || len > RSIZE_MAX_WSTR)) {
                     handle_error((char *)(void *)dest, destbos,
                                  "mbstowcs"
